@@ -28,6 +28,10 @@ def gen_history(rng, nops):
         kinds[uid[0]] = kind.split()[0]
         return ["NEW 1 %d %s" % (uid[0], kind)], uid[0]
 
+    def lvl():
+        # one operation in eight goes through the array's lower-level handle (array_list_* on json_object_get_array): the same array, the same model
+        return " L" if rng.random() < 0.125 else ""
+
     def idx_choice(L):
         r = rng.random()
         if r < 0.45 and L:
@@ -58,24 +62,24 @@ def gen_history(rng, nops):
         r = rng.random()
         if r < 0.25:
             c, u = newelem()
-            ops.append((c + ["AADD 0 1"], ("add", u)))
+            ops.append((c + ["AADD 0 1" + lvl()], ("add", u)))
             model_len[0] += 1
         elif r < 0.45:
             c, u = newelem()
             i = idx_choice(L)
-            ops.append((c + ["APUT 0 %s 1" % i], ("put", i, u)))
+            ops.append((c + ["APUT 0 %s 1" % i + lvl()], ("put", i, u)))
             if isinstance(i, int) and i < (1 << 33):
                 model_len[0] = max(L, i + 1)
         elif r < 0.62:
             c, u = newelem()
             i = idx_choice(L)
-            ops.append((c + ["AINS 0 %s 1" % i], ("ins", i, u)))
+            ops.append((c + ["AINS 0 %s 1" % i + lvl()], ("ins", i, u)))
             if isinstance(i, int) and i < (1 << 33):
                 model_len[0] = max(L + 1, i + 1) if i < L else max(L, i + 1)
         elif r < 0.8:
             i = rng.choice([0, 1, max(0, L - 1), L, L + 1, "max", rng.randrange(L + 1)])
             cnt = rng.choice([0, 1, 1, 2, 3, max(0, L - 1), L, L + 1, "max"])
-            ops.append((["ADEL 0 %s %s" % (i, cnt)], ("del", i, cnt)))
+            ops.append((["ADEL 0 %s %s" % (i, cnt) + lvl()], ("del", i, cnt)))
             if isinstance(i, int) and isinstance(cnt, int) and i < L and i + cnt <= L:
                 model_len[0] -= cnt
         elif r < 0.86:
@@ -297,6 +301,8 @@ def shard_fn(shard, nshards, seed, tier, exe, nhist):
             dump_i = max(i for i, c in enumerate(ccmds) if c.startswith("ADUMP"))
             opline = chunk[dump_i - 1] if k not in ("new",) else chunk[0]
             if k in ("add", "put", "ins", "del", "shrink"):
+                if any(cc.endswith(" L") or cc.startswith("ALADD") for cc in ccmds):
+                    sh.count("operations_through_the_array_list_handle." + k)
                 ret = int(opline.split()[1])
                 dels = parse_del(opline)
                 if ret != exp["ret"]:
